@@ -340,4 +340,81 @@ theorem getChromsizes_nodup (bins : BinTable) : ((getChromsizes bins).map Prod.f
       subst hc
       exact hany x (by rw [heq]; simp) h1
 
+/-! ## binnify then infer the chromosome sizes: the identity -/
+
+theorem getChromsizes_group_append (c : Nat) :
+    ∀ (g t : BinTable), g ≠ [] → (∀ x ∈ g, x.chrom = c) → (∀ y ∈ t, y.chrom ≠ c) →
+      getChromsizes (g ++ t) = (c, lastStop g) :: getChromsizes t := by
+  intro g
+  induction g with
+  | nil => intro t h; exact absurd rfl h
+  | cons x rest ih =>
+    intro t _ hg ht
+    have hx : x.chrom = c := hg x (by simp)
+    cases rest with
+    | nil =>
+      have hany : (t.any fun y => y.chrom == x.chrom) = false := by
+        rw [List.any_eq_false]
+        intro y hy
+        simp only [beq_iff_eq]
+        rw [hx]; exact ht y hy
+      show getChromsizes (x :: t) = _
+      rw [getChromsizes, hany]
+      simp [lastStop, hx]
+    | cons y rest' =>
+      have hany : ((y :: rest' ++ t).any fun z => z.chrom == x.chrom) = true := by
+        rw [List.any_eq_true]
+        exact ⟨y, by simp, by simp only [beq_iff_eq]; rw [hg y (by simp), hx]⟩
+      show getChromsizes (x :: (y :: rest' ++ t)) = _
+      rw [getChromsizes, if_pos hany]
+      rw [ih t (by simp) (fun z hz => hg z (List.mem_cons_of_mem _ hz)) ht]
+      simp [lastStop, List.getLast?_cons_cons]
+
+theorem tilingSpec_chrom (c L b : Nat) : ∀ x ∈ tilingSpec c L b, x.chrom = c := by
+  intro x hx
+  simp only [tilingSpec, List.mem_map] at hx
+  obtain ⟨k, _, rfl⟩ := hx
+  rfl
+
+theorem tilingSpec_ne_nil (c L b : Nat) (hb : 1 ≤ b) (hL : 1 ≤ L) : tilingSpec c L b ≠ [] := by
+  intro h
+  have := congrArg List.length h
+  rw [tilingSpec_length] at this
+  have hn : 1 ≤ ceilDiv L b := by
+    unfold ceilDiv; rw [Nat.le_div_iff_mul_le (by omega)]; omega
+  simp at this; omega
+
+theorem binnifySpecFrom_chrom_ge (b : Nat) :
+    ∀ (sizes : List Nat) (c0 : Nat), ∀ x ∈ binnifySpecFrom c0 sizes b, c0 ≤ x.chrom := by
+  intro sizes
+  induction sizes with
+  | nil => intro c0 x hx; simp [binnifySpecFrom] at hx
+  | cons L rest ih =>
+    intro c0 x hx
+    simp only [binnifySpecFrom, List.mem_append] at hx
+    rcases hx with h | h
+    · rw [tilingSpec_chrom c0 L b x h]; exact Nat.le_refl _
+    · have := ih (c0 + 1) x h; omega
+
+/-- **binnify_roundtrip**: the chromosome sizes inferred from a binned genome are the sizes it was
+binned from, in order (lengths and width ≥ 1). -/
+theorem binnify_roundtrip (b : Nat) (hb : 1 ≤ b) :
+    ∀ (sizes : List Nat) (c0 : Nat), (∀ L ∈ sizes, 1 ≤ L) →
+      getChromsizes (binnifyFrom c0 sizes b) = (sizes.zipIdx c0).map fun p => (p.2, p.1) := by
+  intro sizes
+  induction sizes with
+  | nil => intro c0 _; simp [binnifyFrom, getChromsizes]
+  | cons L rest ih =>
+    intro c0 hL
+    rw [binnify_eq_spec c0 (L :: rest) b hb]
+    simp only [binnifySpecFrom]
+    rw [getChromsizes_group_append c0 _ _ (tilingSpec_ne_nil c0 L b hb (hL L (by simp)))
+      (tilingSpec_chrom c0 L b)
+      (fun y hy => by have := binnifySpecFrom_chrom_ge b rest (c0 + 1) y hy; omega)]
+    rw [tilingSpec_last_stop c0 L b hb (hL L (by simp)), ← binnify_eq_spec (c0 + 1) rest b hb,
+      ih (c0 + 1) (fun x hx => hL x (List.mem_cons_of_mem _ hx))]
+    simp [List.zipIdx_cons]
+
+example : getChromsizes (binnify [25, 7, 10] 10) = [(0, 25), (1, 7), (2, 10)] := by decide
+
 end Cooler.C20
